@@ -118,7 +118,9 @@ def reformat_parsed_mutants(ctx, tname, p, pt, cname, t, rng):
             t2 = p.format(r.value)
         except Exception as e:  # noqa: BLE001   (escapes are C08's subject)
             ctx.exc(e); continue
-        if t2.casefold() != m.casefold() and tname == "Offset" and r.value == type(r.value).zero and t2.lstrip("+-") == m.lstrip("+-"):
+        if ";" in pt and t2.casefold().replace(",", ".") == m.casefold().replace(",", "."):
+            ctx.counters["note:comma-for-semicolon"] += 1   # ';' accepts '.' or ',' and formats '.': documented alternative form
+        elif t2.casefold() != m.casefold() and tname == "Offset" and r.value == type(r.value).zero and t2.lstrip("+-") == m.lstrip("+-"):
             ctx.counters["note:negative-zero-text"] += 1
         elif t2.casefold() != m.casefold():
             cls = "nul-terminated-text-accepted" if "\0" in m else "accepted-text-not-reproduced"
